@@ -35,12 +35,15 @@ type Type struct {
 	Raw    string // KIface/KFunc/KChan literal text
 	// StructPkg: package in whose source an unnamed struct type is written (accessibility of unexported fields).
 	StructPkg *Package
+	// Args are the type arguments of an instantiated generic named type (KNamed with Decl.TypeParams).
+	Args []*Type
 }
 
 type Field struct {
 	Name     string
 	T        *Type
 	Embedded bool
+	Tag      string // struct tag without back quotes
 }
 
 // Decl is a named type declaration.
@@ -51,6 +54,8 @@ type Decl struct {
 	Consts []Const // enum members
 	// Methods are raw method declarations rendered after the type.
 	Methods []string
+	// TypeParams of a generic declaration (e.g. ["T"]); the underlying type refers to them as KBasic with that name.
+	TypeParams []string
 }
 
 type Const struct {
@@ -80,7 +85,47 @@ func F(name string, t *Type) *Field { return &Field{Name: name, T: t} }
 // Under returns the underlying type (resolving named types).
 func (t *Type) Under() *Type {
 	for t.K == KNamed {
+		if len(t.Args) > 0 {
+			t = t.Decl.Under.subst(t.Decl.TypeParams, t.Args)
+			continue
+		}
 		t = t.Decl.Under
+	}
+	return t
+}
+
+// subst replaces type parameters (written as KBasic with the parameter's name) by the arguments.
+func (t *Type) subst(params []string, args []*Type) *Type {
+	switch t.K {
+	case KBasic:
+		for i, p := range params {
+			if t.Basic == p {
+				return args[i]
+			}
+		}
+		return t
+	case KPtr:
+		return Ptr(t.Elem.subst(params, args))
+	case KSlice:
+		return Slice(t.Elem.subst(params, args))
+	case KArray:
+		return Array(t.Len, t.Elem.subst(params, args))
+	case KMap:
+		return Map(t.Key.subst(params, args), t.Elem.subst(params, args))
+	case KStruct:
+		st := &Type{K: KStruct}
+		for _, f := range t.Fields {
+			st.Fields = append(st.Fields, &Field{Name: f.Name, T: f.T.subst(params, args), Embedded: f.Embedded, Tag: f.Tag})
+		}
+		return st
+	case KNamed:
+		if len(t.Args) > 0 {
+			n := &Type{K: KNamed, Decl: t.Decl}
+			for _, a := range t.Args {
+				n.Args = append(n.Args, a.subst(params, args))
+			}
+			return n
+		}
 	}
 	return t
 }
@@ -91,6 +136,9 @@ func (t *Type) Imports(from *Package, into map[*Package]bool) {
 	case KNamed:
 		if t.Decl.Pkg != from {
 			into[t.Decl.Pkg] = true
+		}
+		for _, a := range t.Args {
+			a.Imports(from, into)
 		}
 	case KPtr, KSlice, KArray, KChan:
 		if t.Elem != nil {
@@ -112,10 +160,18 @@ func (t *Type) Go(from *Package, alias func(*Package) string) string {
 	case KBasic:
 		return t.Basic
 	case KNamed:
-		if t.Decl.Pkg == from {
-			return t.Decl.Name
+		name := t.Decl.Name
+		if t.Decl.Pkg != from {
+			name = alias(t.Decl.Pkg) + "." + t.Decl.Name
 		}
-		return alias(t.Decl.Pkg) + "." + t.Decl.Name
+		if len(t.Args) > 0 {
+			var as []string
+			for _, a := range t.Args {
+				as = append(as, a.Go(from, alias))
+			}
+			name += "[" + strings.Join(as, ", ") + "]"
+		}
+		return name
 	case KPtr:
 		return "*" + t.Elem.Go(from, alias)
 	case KSlice:
@@ -137,6 +193,9 @@ func (t *Type) Go(from *Package, alias func(*Package) string) string {
 				sb.WriteString(f.T.Go(from, alias))
 			} else {
 				sb.WriteString(f.Name + " " + f.T.Go(from, alias))
+			}
+			if f.Tag != "" {
+				sb.WriteString(" `" + f.Tag + "`")
 			}
 		}
 		if len(t.Fields) > 0 {
@@ -164,6 +223,9 @@ func (t *Type) shape(seen map[*Decl]bool) string {
 		}
 		seen[t.Decl] = true
 		s := "N(" + t.Decl.Under.shape(seen) + ")"
+		for _, a := range t.Args {
+			s += "[" + a.shape(seen) + "]"
+		}
 		delete(seen, t.Decl)
 		return s
 	case KPtr:
@@ -204,6 +266,12 @@ func (t *Type) kinds(into map[string]bool, seen map[*Decl]bool) {
 		} else {
 			into["named"] = true
 		}
+		if len(t.Args) > 0 {
+			into["generic"] = true
+			for _, a := range t.Args {
+				a.kinds(into, seen)
+			}
+		}
 		t.Decl.Under.kinds(into, seen)
 	case KPtr:
 		into["ptr"] = true
@@ -231,6 +299,9 @@ func (t *Type) kinds(into map[string]bool, seen map[*Decl]bool) {
 			if f.Embedded {
 				into["embedded"] = true
 			}
+			if f.Tag != "" {
+				into["tag"] = true
+			}
 			if f.Name != "" && f.Name[0] >= 'a' && f.Name[0] <= 'z' {
 				into["unexportedfield"] = true
 			}
@@ -256,7 +327,11 @@ func RenderDecls(p *Package, root string) string {
 	writeImports(&sb, imports, root, nil)
 	alias := func(q *Package) string { return q.Name }
 	for _, d := range p.Decls {
-		fmt.Fprintf(&sb, "type %s %s\n\n", d.Name, d.Under.Go(p, alias))
+		tp := ""
+		if len(d.TypeParams) > 0 {
+			tp = "[" + strings.Join(d.TypeParams, ", ") + " any]"
+		}
+		fmt.Fprintf(&sb, "type %s%s %s\n\n", d.Name, tp, d.Under.Go(p, alias))
 		if len(d.Consts) > 0 {
 			sb.WriteString("const (\n")
 			for _, c := range d.Consts {
